@@ -26,6 +26,9 @@ Inductive case :=
    (None = ParameterNotIntegerException, Some None = no program, Some (Some c) = count c) *)
 | CFrac (e : expr) (vals : list (name * Q)) (ups : list (list (name * Q))) (after : list Z)
         (fresh : list (option (option Z)))
+(* make_compatible pipeline: not modelled; the verdict comes from the Python-side oracle py_spec (sampled play-back of
+   the updated program = sampled play-back of a fresh instantiation + make_compatible) *)
+| CSpecOnly
 | CCrash.
 
 (* ------------------------------------------------------------------------------------------------------------ *)
@@ -166,6 +169,7 @@ Definition check_corr (c : case) : bool :=
   | CFrac e vals ups after fresh =>
       let st := frac_steps e vals ups in
       list_eqb Z.eqb (map fst st) after && list_eqb fresh_eqb (map snd st) fresh
+  | CSpecOnly => true
   | CCrash => false
   end.
 
@@ -328,5 +332,6 @@ Definition check_spec (c : case) : bool :=
                          | Some None => fst af =? 0
                          | None => false
                          end) (combine after fresh)
+  | CSpecOnly => true
   | CCrash => false
   end.
